@@ -313,8 +313,15 @@ def _check_calendar(prog: Program, res: Result):
                 self.visit(s)
             self.stack.pop()
 
-        def visit_Assign(self, n):
-            v = n.value
+        def visit_Assign(self, n, v=None):
+            v = n.value if v is None else v
+            if isinstance(v, ast.IfExp):  # x = A if c else B  is  if c: x = A  else: x = B
+                self.stack.append((v.test, True))
+                self.visit_Assign(n, v.body)
+                self.stack[-1] = (v.test, False)
+                self.visit_Assign(n, v.orelse)
+                self.stack.pop()
+                return
             if isinstance(v, ast.Name) and v.id in prog.modules[fi.module].constants and v.id not in local_names:
                 v = prog.modules[fi.module].constants[v.id]  # a module-level table
             li = _list_ints(v)
